@@ -11,6 +11,7 @@ import (
 	"sort"
 	"strconv"
 	"strings"
+	"sync"
 
 	"github.com/tsuna/gohbase"
 	"github.com/tsuna/gohbase/hrpc"
@@ -529,6 +530,66 @@ func runC08(tier string, seed uint64, out *Out) {
 	for i := 0; i < nill; i++ {
 		emit(randomSeq(rill, 12, true))
 	}
+	// discoveries made at the same instant by different goroutines
+	nc := 8
+	if tier != "quick" {
+		nc = 60
+	}
+	for i := 0; i < nc; i++ {
+		if !out.Want() {
+			out.n++
+			continue
+		}
+		out.Line("%s", c08Concurrent(NewRNG(seed, fmt.Sprintf("c08c-%d", i))))
+	}
+}
+
+// c08Concurrent: in every round two or three goroutines put pairwise intersecting regions of one
+// table into the same cache at the same instant (as concurrent lookups of neighbouring keys do
+// after a split or merge). Whatever the interleaving, no two cached regions may intersect when
+// they have all returned.
+func c08Concurrent(rng *RNG) string {
+	rounds := 1500
+	bad := 0
+	first := ""
+	for round := 0; round < rounds; round++ {
+		cache := gohbase.VerifNewCache()
+		// [a,m) id 5 ; [f,z) id 6 ; [c,h) id 7 : all pairwise intersecting
+		specs := []struct {
+			start, stop string
+			id          uint64
+		}{{"a", "m", 5}, {"f", "z", 6}, {"c", "h", 7}}
+		k := 2 + rng.Intn(2)
+		start := make(chan struct{})
+		var wg sync.WaitGroup
+		for i := 0; i < k; i++ {
+			sp := specs[i]
+			r := region.NewInfo(sp.id, nil, []byte("t"), []byte(fmt.Sprintf("t,%s,%d.x.", sp.start, sp.id)), []byte(sp.start), []byte(sp.stop))
+			wg.Add(1)
+			go func() {
+				defer wg.Done()
+				<-start
+				cache.Put(r)
+			}()
+		}
+		close(start)
+		wg.Wait()
+		d := cache.Dump()
+		for i := 0; i < len(d); i++ {
+			for j := i + 1; j < len(d); j++ {
+				if gohbase.VerifIsRegionOverlap(d[i], d[j]) {
+					bad++
+					if first == "" {
+						first = fmt.Sprintf("%s+%s", hx(d[i].Name()), hx(d[j].Name()))
+					}
+				}
+			}
+		}
+	}
+	if first == "" {
+		first = "-"
+	}
+	return fmt.Sprintf("c08 conc rounds=%d overlapping=%d first=%s", rounds, bad, first)
 }
 
 // sortDescs orders descriptors like the cache does (region.Compare on names).
